@@ -795,4 +795,69 @@ example : PosHist exM exB [(0, 0), (0, 1)] := by
   refine ⟨?_, ?_, trivial⟩ <;>
   norm_num [unnormG, exM, exB, ofList, ofList2, sumTo]
 
+
+/-! ## in-place calls (`bRet == &b`) of the pointer overloads
+
+  FULL-STRENGTH statement (what C05 needs, and what holds for every branch once the alias guard of
+  fixes/C05-1-inplace-alias-guard.diff is in place, because the guarded call runs the ordinary code on a copy):
+
+      ∀ m b a o,  (result of the call with bRet == &b) = (result of the call with a separate output)
+
+  For the code as it is this is FALSE on the loop branch (`inplace_generic_counterexample`,
+  `inplace_predict_counterexample`) and on the sparse Eigen branch (`inplace_sparse_counterexample`); it is true
+  on the dense Eigen branch only because Eigen evaluates `bᵀ·T_a` into a temporary.  What the loop branch does
+  satisfy is the `_partial` form below: in-place is right when no cell reads a cell written before it. -/
+
+theorem inplace_inv (m : POMDP) (b : Vec) (a o : Nat) (hT : ∀ s s1, s < s1 → m.T s a s1 = 0) :
+    ∀ n, (∀ k, k < n → unnormInPlaceG m b a o n k = unnormG m b a o k) ∧
+         (∀ k, n ≤ k → unnormInPlaceG m b a o n k = b k)
+  | 0 => ⟨fun k hk => by omega, fun k _ => rfl⟩
+  | n+1 => by
+    obtain ⟨ih1, ih2⟩ := inplace_inv m b a o hT n
+    constructor
+    · intro k hk
+      simp only [unnormInPlaceG]
+      by_cases hkn : k = n
+      · subst hkn
+        simp only [if_true]
+        unfold unnormG
+        congr 1
+        apply sumTo_congr
+        intro s _
+        rcases Nat.lt_or_ge s k with h | h
+        · rw [hT s k h]; ring
+        · rw [ih2 s h]
+      · simp only [hkn, if_false]
+        exact ih1 k (by omega)
+    · intro k hk
+      simp only [unnormInPlaceG]
+      have : k ≠ n := by omega
+      simp only [this, if_false]
+      exact ih2 k (by omega)
+
+/-- `_partial`: the unguarded in-place loop is right when every transition goes to a state of lower or equal
+    index (then cell `s1` never reads a cell overwritten before it) -/
+theorem inplace_generic_partial (m : POMDP) (b : Vec) (a o : Nat) (hT : ∀ s s1, s < s1 → m.T s a s1 = 0) :
+    ∀ s1, s1 < m.S → unnormInPlaceG m b a o m.S s1 = unnormG m b a o s1 :=
+  fun s1 hs1 => (inplace_inv m b a o hT m.S).1 s1 hs1
+
+/-- the witness of the harness's fixed case 3: cell 2 is 7/64 in place, 11/32 out of place -/
+theorem inplace_generic_counterexample :
+    ¬ (∀ s1, s1 < exM.S → unnormInPlaceG exM exB 0 0 exM.S s1 = unnormG exM exB 0 0 s1) := by
+  intro h
+  have h2 := h 2 (by decide)
+  norm_num [unnormInPlaceG, unnormG, exM, exB, ofList, ofList2, sumTo] at h2
+
+theorem inplace_predict_counterexample :
+    ¬ (∀ s1, s1 < exM.S → predictInPlaceG exM exB 0 exM.S s1 = predictG exM exB 0 s1) := by
+  intro h
+  have h0 := h 0 (by decide)
+  norm_num [predictInPlaceG, predictCellInPlace, predictG, exM, exB, ofList, ofList2, sumTo] at h0
+
+theorem inplace_sparse_counterexample :
+    ¬ (∀ s1, s1 < exM.S → unnormInPlaceSp exM exB 0 0 s1 = unnormG exM exB 0 0 s1) := by
+  intro h
+  have h0 := h 0 (by decide)
+  norm_num [unnormInPlaceSp, unnormG, exM, exB, ofList, ofList2, sumTo] at h0
+
 end AITB.Belief
